@@ -19,7 +19,7 @@ func Message(t *rapid.T, label string) []byte {
 			n = 32
 		}
 	default:
-		n = rapid.SampledFrom(msgLens).Draw(t, label+"_lenpick")
+		n = Sampled(msgLens).Draw(t, label+"_lenpick")
 	}
 	b := make([]byte, n)
 	switch rapid.IntRange(0, 3).Draw(t, label+"_content") {
